@@ -8,7 +8,7 @@ REQUIRED_THEOREMS = ["write_is_function", "comparison_in_namespace", "condition_
                      "context_calibrator_in_namespace", "encoding_in_namespace", "ptype_in_namespace",
                      "container_in_namespace", "document_in_namespace", "fixpoint", "every_further_cycle"]
 RULE = ("the same requests as C09 (`cyclexml`, `cycleobj`); the implementation side additionally writes every definition "
-        "twice with a fixed header date and compares bytes, compares the bytes of G2 and G3, checks that every element of G1 "
+        "twice with a fixed header date and compares bytes, compares the bytes of G2 and G3 (and of G1 and G2 when the definition was loaded from a document: G1 is then the document after one cycle), checks that every element of G1 "
         "lies in the definition's XTCE namespace and that writing did not alter the definition (structural snapshot); "
         "non-trivial = the definition has at least 3 containers; distinct = distinct request line")
 ASSUMPTIONS = ["datetime.now() is never modelled: definitions carry a fixed header date", "lxml serialisation is trusted"]
@@ -22,12 +22,15 @@ impl = c09.impl
 def oracle(line, out):
     if not out.startswith("ok") and not out.startswith("D1"):
         return None
-    for note in ("nondeterministic-write", "bytes-differ-G2-G3", "element-outside-namespace", "definition-altered-by-write",
+    for note in ("nondeterministic-write", "bytes-differ-G2-G3", "bytes-differ-G1-G2", "element-outside-namespace", "definition-altered-by-write",
                  "write_xml-differs", "write_xml-failed", "undated-write-failed"):
         if note in out:
             return False
     st = c09.stages(out)
     if "G2" in st and "G3" in st and st["G2"].strip() != st["G3"].strip():
+        return False
+    # a definition loaded from a document: G1 is the document after one write/load cycle, G2 the next cycle's
+    if line.startswith("cyclexml") and "G1" in st and "G2" in st and st["G1"].strip() != st["G2"].strip():
         return False
     return True
 
